@@ -283,6 +283,7 @@ func rulesC02(p *Prog, r *Report) {
 			r.OK("M4", x.name, pos, "match(a,a) reduces to true", fmt.Sprintf("%d atoms", n), true)
 		}
 	}
+	ruleM7(p, r, FR, lrc, recv, roleR)
 	// M2
 	if FE != nil && FL != nil && !FE.has("unknown") && !FL.has("unknown") {
 		bad, n, ok := forAll([]*qf{FL, FE}, func(asg map[string]bool) bool {
